@@ -1,7 +1,7 @@
 """C11 -- the unchecked binary codec equals the checked one within its contract (primitive level)."""
 import random, re
 from .. import core, thriftgen as tg
-from . import c07, c09
+from . import c01, c07, c09
 
 BKS = ["contig", "linked", "linked_zc"]
 
@@ -85,6 +85,22 @@ def run_prim(chk, replay=None):
                 failing.append((c, "%s [%s build]" % (why, prof), o))
             if mo is not None and c09.strip_impl(o).replace(" GUARD-BROKEN", "") != re.sub(r"panic \w+", "panic", mo[i]):
                 mism.append(("urt", c, o, mo[i]))
+        # enveloped messages: write_message_begin + value (+ several messages on one protocol object) through the unchecked
+        # codec must give the bytes and the read-back of the checked binary codec
+        mrt_u = [c for c in c01.gen_msg_cases(random.Random(chk.seed + 11), max(90, n // 12)) if c.split(" ")[1] == "unsafe"]
+        mrt_c = ["mrt binary contig sync " + c.split(" ", 4)[4] for c in mrt_u]
+        uo2, co2 = core.run_lines(b, mrt_u), core.run_lines(b, mrt_c)
+        mo2 = core.run_lines(core.RUNNER, mrt_u) if have_model else None
+        for i, (c, o, co) in enumerate(zip(mrt_u, uo2, co2)):
+            if prof == "debug":
+                chk.count(c, True); bump("mrt_unsafe_" + c.split(" ")[2])
+            why = c01.msg_oracle(c, o)
+            if why is None and o != co:
+                why = "unchecked codec differs from the checked binary codec on an enveloped message sequence"
+            if why:
+                failing.append((c, "%s [%s build]" % (why, prof), o))
+            if mo2 is not None and o != re.sub(r"panic \w+", "panic", mo2[i]):
+                mism.append(("mrt", c, o, mo2[i]))
         # iterative skipper
         enc = dict(zip(enc_lines, core.run_lines(b, enc_lines)))
         sk_lines, sk_meta = [], []
@@ -124,7 +140,8 @@ def run_prim(chk, replay=None):
                        "{pre-sized BytesMut, LinkedBytes spare capacity zero-copy off/on} x slack {0,1,7,64} x trailing bytes: unchecked output == "
                        "checked binary output, size == bytes, guard bytes after every allocation intact, unchecked decode == checked decode, cursor "
                        "accounting exact. usk: iterative skipper after a field header on values of every wire type, nesting 1..80: count == "
-                       "encoded length, following value intact. non-trivial = containers; distinct by SHA-1")
+                       "encoded length, following value intact. mrt unsafe: 1-3 enveloped messages on one unchecked writer / reader == "
+                       "the checked binary codec on the same sequence. non-trivial = containers; distinct by SHA-1")
     chk.sample(urt[0][:300]); chk.sample(urt[len(urt) // 2][:300])
     chk.cov["disagreements_checked"] = (len(urt) + len(usk)) * len(bins)
     chk.cov["model_impl_mismatches"] = len(mism)
